@@ -61,10 +61,17 @@ def check_swap(ctx: Ctx, rid_pair: str, rid_region: str, pm: ParserModel) -> Non
                     why = "the finally block does not store back the value read from self.lex before the try"
                 ctx.ob(rid_pair, f"parser:CxxParser.{fname}|restore `{short(st)}`", ok, msg=why, node=st, mod=mod)
             else:
-                ok = bool(enclosing) and any(
-                    any(isinstance(s, ast.Assign) and any(is_self_attr(tg, "lex") for tg in s.targets) for b in t.finalbody for s in ast.walk(b))
-                    for t in enclosing
-                )
+                restores = lambda t: any(isinstance(s, ast.Assign) and any(is_self_attr(tg, "lex") for tg in s.targets) for b in t.finalbody for s in ast.walk(b))
+                ok = bool(enclosing) and any(restores(t) for t in enclosing)
+                if not ok:
+                    # the swap as the last thing before the try: nothing that can fail lies between the two
+                    blk = _block_of(fn, st)
+                    if blk is not None:
+                        rest = blk[blk.index(st) + 1:]
+                        k = 0
+                        while k < len(rest) and isinstance(rest[k], ast.Assign) and isinstance(rest[k].value, (ast.Name, ast.Constant)) and all(isinstance(tg, ast.Name) for tg in rest[k].targets):
+                            k += 1
+                        ok = k < len(rest) and isinstance(rest[k], ast.Try) and bool(rest[k].finalbody) and restores(rest[k])
                 ctx.ob(rid_pair, f"parser:CxxParser.{fname}|swap `{short(st)}`", ok,
                        msg="self.lex is rebound outside a try/finally that restores it: an exception or early return leaves the parser reading from the temporary stream",
                        node=st, mod=mod)
@@ -73,7 +80,7 @@ def check_swap(ctx: Ctx, rid_pair: str, rid_region: str, pm: ParserModel) -> Non
             if not any(isinstance(s, ast.Assign) and any(is_self_attr(tg, "lex") for tg in s.targets) for b in t.finalbody for s in ast.walk(b)):
                 continue
             swap_sts = [s for b in t.body for s in ast.walk(b) if isinstance(s, ast.Assign) and any(is_self_attr(tg, "lex") for tg in s.targets)]
-            inner = [x for b in t.body for x in ast.walk(b) if isinstance(x, ast.Try) and x.handlers]
+            inner = [x for b in t.body for x in ast.walk(b) if isinstance(x, ast.Try) and x.handlers] + ([t] if t.handlers else [])
             # every self-call while swapped is inside an inner try with an `except CxxParseError` that does not re-raise
             calls = []
             after_swap = False
@@ -165,7 +172,9 @@ def check_swap(ctx: Ctx, rid_pair: str, rid_region: str, pm: ParserModel) -> Non
                         if extra else "the trial parse is not tied to the argument starting like a type name"), node=t, mod=mod)
         # ---- whole-argument condition: the success path passes `_next_token_must_be(PhonyEnding.type)` and has_tokens()
         for t in tries:
-            inner = [x for b in t.body for x in ast.walk(b) if isinstance(x, ast.Try) and x.handlers]
+            if not any(isinstance(s, ast.Assign) and any(is_self_attr(tg, "lex") for tg in s.targets) for b in t.finalbody for s in ast.walk(b)):
+                continue
+            inner = [x for b in t.body for x in ast.walk(b) if isinstance(x, ast.Try) and x.handlers] + ([t] if t.handlers else [])
             for it in inner:
                 must = [x for b in it.body for x in ast.walk(b) if isinstance(x, ast.Call) and pm.resolve(fname, x) == ("self", "_next_token_must_be") and x.args and norm(x.args[0]) == "PhonyEnding.type"]
                 # the placeholder is required last: nothing after it in the trial body calls anything (plain copies are fine)
@@ -177,6 +186,15 @@ def check_swap(ctx: Ctx, rid_pair: str, rid_region: str, pm: ParserModel) -> Non
                 ctx.ob(rid_region, f"parser:CxxParser.{fname}|type kept only if it spans the whole argument", last_ok and bool(has),
                        msg="the trial no longer ends by requiring the placeholder token and an empty bounded stream: a type that covers only a prefix of the argument would be reported",
                        node=it, mod=mod)
+
+
+def _block_of(fn: ast.AST, st: ast.stmt):
+    for holder in ast.walk(fn):
+        for fld in ("body", "orelse", "finalbody"):
+            blk = getattr(holder, fld, None)
+            if isinstance(blk, list) and any(x is st for x in blk):
+                return blk
+    return None
 
 
 def _rebinds(n: Node, var: str) -> bool:
